@@ -247,6 +247,8 @@ class Harness(object):
                     args.append(self.sym(I, root, tyid, i, 'a%d' % i, 0, False, overrides))
             root.args = args
             root.ret_ty = body['locals'][0]
+            mk_ = I.new_obj(1, 'arg-write-marker', 'marker')
+            I.marker = mk_.id
             res = I.call_body(key, args, None)
             if res is None:
                 root.diverged = True
@@ -279,10 +281,15 @@ def _slice_lazy(H, root, argi, name, elem_ty):
             return Agg(0)
         lo = off // esz
         hi = (off + size + esz - 1) // esz
-        for j in range(lo, hi):
-            if not I._overlaps(obj, j * esz, esz):
-                v = H.sym(I, root, elem_ty, argi, '%s[%d]' % (name, j), 0, True, None, 0, elem_ty)
-                I.write(obj, j * esz, esz, v)
+        mk_ = I.marker
+        I.marker = None          # materialising the symbolic contents of the slice is not a write by the analysed code
+        try:
+            for j in range(lo, hi):
+                if not I._overlaps(obj, j * esz, esz):
+                    v = H.sym(I, root, elem_ty, argi, '%s[%d]' % (name, j), 0, True, None, 0, elem_ty)
+                    I.write(obj, j * esz, esz, v)
+        finally:
+            I.marker = mk_
         if tyid == 'touch':
             return None
         save = obj.lazy
